@@ -163,6 +163,16 @@ func evidenceCases(r *sim.Rng, count int, cw *sim.CaseWriter) {
 				hasBlock = true
 			}
 		}
+		// a replica that has already processed evidence at this height and has since been moved to a later root height (a
+		// root-chain update with the locks kept, or the refresh of a round change): what counts as expired is decided by the root
+		// height it is at NOW - an answer remembered from before the move would let expired evidence through
+		if ctl.UnstakingBlocks > 0 && !hasBlock && r.Chance(45) {
+			_, _ = b.ProcessDSE(ev...)
+			newRoot := uint64(7 + 1 + r.Intn(2))
+			n.RootUpdate(0, newRoot)
+			ctl.MinEvidenceHeight = newRoot - ctl.UnstakingBlocks
+			st.Outcomes["processed-again-after-root-update"]++
+		}
 		out, perr := b.ProcessDSE(ev...)
 		if hasBlock {
 			// the model has no block field in a certificate: evidence with a block attached must simply be refused
@@ -190,6 +200,109 @@ func evidenceCases(r *sim.Rng, count int, cw *sim.CaseWriter) {
 		cw.Add(fmt.Sprintf("mkEC %s %s %s %s %s", sim.CoqNList(powers), sim.CoqN(ctl.MinEvidenceHeight), sim.CoqList(evLit), sim.CoqList(invalid), obs), map[string]any{"pieces": len(ev), "error": perr != nil})
 		st.Cases++
 		st.Distinct++
+	}
+}
+
+// collectionCases: evidence pieces offered one by one to the real AddDSE on ONE collection (as a leader collects them from
+// ELECTION votes and from its own partial certificates): exact duplicates, pieces about the same view and the same two payloads
+// under DIFFERENT signer sets (they accuse different validators), pieces about other payloads, invalid pieces. Observed: how many
+// pieces the collection kept and what the real ProcessDSE derives from it.
+func collectionCases(r *sim.Rng, count int, cw *sim.CaseWriter) {
+	powersets := [][]uint64{{100, 100, 100, 100}, {10, 20, 30, 40, 25}, {300, 100, 100, 100, 100, 100, 100}}
+	for c := 0; c < count; c++ {
+		powers := powersets[r.Intn(len(powersets))]
+		n, err := bftsim.New(powers, 7)
+		if err != nil {
+			panic(err)
+		}
+		b := n.Reps[0].B
+		ctl := n.Reps[0].Ctl
+		ctl.MinEvidenceHeight = r.Pick(0, 0, 5, 6)
+		ctl.AlreadySlashed = map[string]bool{}
+		var invalid []string
+		for i := 0; i < len(powers); i++ {
+			for _, h := range []uint64{6, 7} {
+				if r.Chance(8) {
+					ctl.AlreadySlashed[fmt.Sprintf("%x@%d", n.Keys[i].Addr, h)] = true
+					invalid = append(invalid, fmt.Sprintf("(%s, %s)", sim.CoqN(uint64(i)), sim.CoqN(h)))
+				}
+			}
+		}
+		blk, res := idmap{}, idmap{}
+		type val struct {
+			block   []byte
+			results *lib.CertificateResult
+		}
+		var vals []val
+		for k := 0; k < 3; k++ {
+			bb, rr := n.MakeProposal(r.Intn(len(powers)), uint64(20+k))
+			vals = append(vals, val{bb, rr})
+		}
+		mk := func(view *lib.View, v val, proposer int, signers []int) *lib.QuorumCertificate {
+			q := &lib.QuorumCertificate{Header: view, ProposerKey: n.Keys[proposer].Pub, BlockHash: b.BlockToHash(v.block), ResultsHash: v.results.Hash()}
+			sig, e := sim.AggregateSign(n.VS, q.SignBytes(), signers)
+			if e != nil {
+				panic(e)
+			}
+			q.Signature = sig
+			return q
+		}
+		subset := func() []int {
+			var s []int
+			for i := range powers {
+				if r.Chance(55) {
+					s = append(s, i)
+				}
+			}
+			if len(s) == 0 {
+				s = []int{r.Intn(len(powers))}
+			}
+			return s
+		}
+		col := bft.NewDSE()
+		var evLit []string
+		type piece struct {
+			view   *lib.View
+			x, y   val
+			p      int
+			sa, sb []int
+		}
+		var pieces []piece
+		kinds := map[string]int{}
+		for k := 0; k < 2+r.Intn(4); k++ {
+			var pc piece
+			switch {
+			case len(pieces) > 0 && r.Chance(25): // an exact duplicate of an earlier piece
+				pc = pieces[r.Intn(len(pieces))]
+				kinds["duplicate"]++
+			case len(pieces) > 0 && r.Chance(45): // the same view and payloads, other signers
+				pc = pieces[r.Intn(len(pieces))]
+				pc.sa, pc.sb = subset(), subset()
+				kinds["same-content-other-signers"]++
+			default:
+				pc = piece{view: &lib.View{NetworkId: bftsim.NetworkID, ChainId: bftsim.ChainID, Height: bftsim.Height, RootHeight: r.Pick(6, 7, 7),
+					Round: uint64(r.Intn(2)), Phase: lib.Phase(r.Pick(4, 4, 6))}, x: vals[r.Intn(3)], y: vals[r.Intn(3)], p: r.Intn(len(powers)), sa: subset(), sb: subset()}
+				kinds["fresh"]++
+			}
+			pieces = append(pieces, pc)
+			qa, qb := mk(pc.view.Copy(), pc.x, pc.p, pc.sa), mk(pc.view.Copy(), pc.y, pc.p, pc.sb)
+			evLit = append(evLit, fmt.Sprintf("(%s, %s)", qcLit(n, blk, res, qa), qcLit(n, blk, res, qb)))
+			_ = b.AddDSE(&col, &bft.DoubleSignEvidence{VoteA: qa, VoteB: qb})
+		}
+		out, perr := b.ProcessDSE(col.Evidence...)
+		obs := "None"
+		if perr == nil {
+			var ds []string
+			for _, d := range out {
+				ds = append(ds, fmt.Sprintf("(%s, %s)", sim.CoqN(uint64(n.IndexOf(d.Id))), sim.CoqNList(d.Heights)))
+			}
+			obs = "(Some " + sim.CoqList(ds) + ")"
+		}
+		cw.Add(fmt.Sprintf("mkCol %s %s %s %s %s %s", sim.CoqNList(powers), sim.CoqN(ctl.MinEvidenceHeight), sim.CoqList(evLit), sim.CoqList(invalid), sim.CoqN(uint64(len(col.Evidence))), obs),
+			map[string]any{"pieces": len(pieces), "kept": len(col.Evidence), "kinds": kinds})
+		st.Cases++
+		st.Distinct++
+		st.Outcomes[fmt.Sprintf("collection:kept-%d-of-%d", len(col.Evidence), len(pieces))]++
 	}
 }
 
@@ -347,6 +460,9 @@ func main() {
 	ownCases(r.Fork(), *nIdx, w3)
 	w3.Close(st)
 	capCases(r.Fork(), 1+*nIdx/2, *outDir)
+	w4 := &sim.CaseWriter{OutDir: *outDir, Name: "c14col", Imports: imp, CaseType: "col_case", MFun: "col_mismatches", VFun: "col_violations", PerShard: 80}
+	collectionCases(r.Fork(), 1+*nEv/3, w4)
+	w4.Close(st)
 	fmt.Printf("c14: %d cases; outcomes %v\n", st.Cases, st.Outcomes)
 	_ = fsm.DefaultParams
 }
